@@ -71,6 +71,8 @@ type RunSpec struct {
 	SymSl    bool           `json:"sym_slices"`
 	Witnesses int           `json:"witnesses"`
 	WallS    int            `json:"wall_s"`
+	PoolReuse bool          `json:"pool_reuse"`
+	PoolHavoc bool          `json:"pool_havoc"`
 }
 
 type HarnessResult struct {
@@ -97,7 +99,7 @@ func runHarnesses(l *Loaded, spec RunSpec, workers int, verbose bool) []HarnessR
 			continue
 		}
 		cfg := Config{FloatModel: spec.Model, SolverBin: spec.Solver, SoftMS: spec.SoftMS, MaxSteps: spec.MaxSteps, MaxConcr: spec.MaxConcr,
-			Merge: spec.Merge, Workers: workers, MaxPaths: spec.MaxPaths, Verbose: verbose, FPExactAdd: spec.FPExact, SymSlices: spec.SymSl, Witnesses: spec.Witnesses}
+			Merge: spec.Merge, Workers: workers, MaxPaths: spec.MaxPaths, Verbose: verbose, FPExactAdd: spec.FPExact, SymSlices: spec.SymSl, Witnesses: spec.Witnesses, PoolReuse: spec.PoolReuse || spec.PoolHavoc, PoolHavoc: spec.PoolHavoc}
 		if cfg.FloatModel == "" {
 			cfg.FloatModel = "R"
 		}
@@ -158,6 +160,8 @@ func cmdRun(args []string) int {
 	solver := fs.String("solver", "", "solver binary (default z3-new)")
 	symsl := fs.Bool("sym-slices", false, "keep slice offsets symbolic")
 	witness := fs.Int("witness", 0, "validate this many completed paths per harness natively")
+	poolReuse := fs.Bool("pool-reuse", false, "sync.Pool keeps and hands out objects")
+	poolHavoc := fs.Bool("pool-havoc", false, "pooled objects have arbitrary numeric contents (implies -pool-reuse)")
 	fs.Parse(args)
 	t0 := time.Now()
 	l, err := loadProgram(repoRoot, filepath.Join(verifRoot, "harness"), *pkg, *tags)
@@ -166,7 +170,7 @@ func cmdRun(args []string) int {
 		return 2
 	}
 	fmt.Fprintf(os.Stderr, "loaded %s in %.1fs; harnesses: %v\n", *pkg, time.Since(t0).Seconds(), l.Harness)
-	spec := RunSpec{Pkg: *pkg, Tags: *tags, Model: *model, Merge: *merge, SoftMS: *soft, FPExact: *fpexact, MaxPaths: *maxPaths, Solver: *solver, SymSl: *symsl, Witnesses: *witness}
+	spec := RunSpec{Pkg: *pkg, Tags: *tags, Model: *model, Merge: *merge, SoftMS: *soft, FPExact: *fpexact, MaxPaths: *maxPaths, Solver: *solver, SymSl: *symsl, Witnesses: *witness, PoolReuse: *poolReuse, PoolHavoc: *poolHavoc}
 	if *harness != "" {
 		spec.Harness = strings.Split(*harness, ",")
 	}
